@@ -488,3 +488,9 @@ func (e *Engine) ifaceOnlyEscape(fn *ssa.Function, esc map[*ssa.Function]string)
 	}
 	return sites, true
 }
+
+// foreignLockIsNil: the guard names a lock field of the same struct (the read/write-mode refinement applies to those).
+func (e *Engine) foreignLockIsNil(g *GuardedDecl) bool {
+	lt, _ := e.foreignLock(g)
+	return lt == nil
+}
